@@ -216,12 +216,12 @@ inst_noalloc!(na_memchr_g0_34, [props=C17 tier=quick cfg=x86std t=1800 role=noal
 inst_noalloc!(na_memchr_g1_34, [props=C17 tier=thorough cfg=x86std t=3600 role=noalloc-memchr uw=byte_by_byte:34;all::memchr::One::count_raw.0:67;all::memchr:10;find_raw.0:3;find_raw.1:4;count_raw.0:3;count_raw.1:4], 3, all_memchr::<34>(1));
 inst_noalloc!(na_long_f0_40, [props=C17 tier=quick cfg=x86std t=1800 role=noalloc-long-needle uw=@LONGNEW;_imp.:35;oracle:35], 4, long_needle_noalloc::<40>(0));
 inst_noalloc!(na_memmem_iters_n0, [props=C17 tier=quick cfg=x86std t=1500 role=noalloc-memmem-iterators uw=@RK;@TWNEW;@TWOFF;with_ranker:6;oracle:6;@PP;@MEMCHR;find_prefilter.0:2;clone:6;from:6], 3, all_memmem::<0, 5>(1, 1));
-inst_noalloc!(na_memmem_iters_n2, [props=C17 tier=quick cfg=x86std t=1500 role=noalloc-memmem-iterators uw=@RK;@TWNEW;@TWOFF;with_ranker:6;oracle:6;@PP;@MEMCHR;find_prefilter.0:2;clone:6;from:6], 3, all_memmem::<2, 4>(1, 1));
+inst_noalloc!(na_memmem_iters_n2, [props=C17 tier=thorough cfg=x86std t=1500 role=noalloc-memmem-iterators uw=@RK;@TWNEW;@TWOFF;with_ranker:6;oracle:6;@PP;@MEMCHR;find_prefilter.0:2;clone:6;from:6], 3, all_memmem::<2, 4>(1, 1));
 inst_noalloc!(na_memmem_n2_rev, [props=C17 tier=quick cfg=x86std t=1500 role=noalloc-memmem uw=@RK;@TWNEW;@TWOFF;with_ranker:6;oracle:6;@PP;@MEMCHR;find_prefilter.0:2;clone:6;from:6], 3, all_memmem::<2, 6>(1, 2));
 inst_noalloc!(na_memmem_n0_rev, [props=C17 tier=quick cfg=x86std t=1500 role=noalloc-memmem uw=@RK;@TWNEW;@TWOFF;with_ranker:6;oracle:6;@PP;@MEMCHR;find_prefilter.0:2;clone:6;from:6], 3, all_memmem::<0, 6>(1, 2));
 inst_noalloc!(na_owned_use_n2, [props=C17 tier=quick cfg=x86std t=1500 role=noalloc-owned-finder uw=@RK;@TWNEW;@TWOFF;with_ranker:6;oracle:6;@PP;@MEMCHR;find_prefilter.0:2;clone:6;from:6], 3, owned_finder_use::<2, 5>(false));
 inst_noalloc!(na_owned_use_rev_n2, [props=C17 tier=quick cfg=x86std t=1500 role=noalloc-owned-finder uw=@RK;@TWNEW;@TWOFF;with_ranker:6;oracle:6;@PP;@MEMCHR;find_prefilter.0:2;clone:6;from:6], 3, owned_finder_use::<2, 5>(true));
-inst_noalloc!(na_memmem_riters_n2, [props=C17 tier=quick cfg=x86std t=1500 role=noalloc-memmem-iterators uw=@RK;@TWNEW;@TWOFF;with_ranker:6;oracle:6;@PP;@MEMCHR;find_prefilter.0:2;clone:6;from:6], 3, all_memmem::<2, 4>(1, 3));
+inst_noalloc!(na_memmem_riters_n2, [props=C17 tier=thorough cfg=x86std t=1500 role=noalloc-memmem-iterators uw=@RK;@TWNEW;@TWOFF;with_ranker:6;oracle:6;@PP;@MEMCHR;find_prefilter.0:2;clone:6;from:6], 3, all_memmem::<2, 4>(1, 3));
 inst_noalloc!(na_oneshot_n2_h17, [props=C17 tier=quick cfg=x86std t=1500 role=noalloc-oneshot-mid uw=is_equal_raw:3;Hash:4;rabinkarp::Finder::new:4;rabinkarp::FinderRev::new:4;find_raw:18;rfind_raw:18;oracle:4], 3, oneshot_mid::<2, 17>());
 inst_noalloc!(na_oneshot_n3_h40, [props=C17 tier=thorough cfg=x86std t=3600 role=noalloc-oneshot-mid uw=is_equal_raw:3;Hash:5;rabinkarp::Finder::new:5;rabinkarp::FinderRev::new:5;find_raw:40;rfind_raw:40;oracle:5], 3, oneshot_mid::<3, 40>());
 inst_noalloc!(na_witness_into_owned, [props=C17 tier=quick cfg=x86std t=600 role=alloc-trap-witness expect=fail:heap_allocation_reached uw=@RK;@TWNEW;@TWOFF;with_ranker:6;oracle:6;@PP;clone:6;from:6], 3, witness_into_owned());
